@@ -4,6 +4,7 @@ CONSTANTS
   Invalidate = {"tetrahedra_points", "com", "aabbs", "aabb_tree"}
   Cached = {"tetrahedra_points", "com", "aabbs", "aabb_tree"}
   FrameCopy = TRUE
+  DetailsFirst = FALSE
   TreeRule = "none"
   MaxCalls = 4
   MaxMoves = 1
